@@ -163,6 +163,9 @@ def check_property(pid, tier, seed, args, t0):
     # bounded stand-ins (never counted as proved)
     bounded = run_bounded(pid, tier, seed)
     for b in bounded:
+        if b.get('error') is not None and not b.get('failures'):
+            # a stand-in that crashed has checked nothing: checker error, never a silent pass
+            errors.append('bounded %s: %s' % (b['name'], str(b['error'])[-300:]))
         if b.get('failures'):
             lab = 'bounded/' + b['name']
             if lab in open_known:
@@ -192,6 +195,7 @@ def check_property(pid, tier, seed, args, t0):
                                                       'fuel')},
                'replay': rp,
                'replay_cmd': 'cd /verif && ./check %s --replay %s' % (pid, os.path.relpath(path, ROOT))}
+        os.makedirs(os.path.dirname(path), exist_ok=True)
         with open(path, 'w') as f:
             json.dump(doc, f, indent=1, default=str)
         tail = '' if rp.get('reproduced') else ' no-failing-input-found'
